@@ -585,7 +585,12 @@ func runBehaviour(b *behaviour, rep *vfutil.Report) (fd *finding, at int) {
 		if fd != nil && fd.Kind == "drift" {
 			// the real pool left the model's path: note it, give up the guided remainder, but still finish the
 			// run on the harness' own schedule and evaluate the property oracles on what the real pool does
-			rep.DriftNote("step %d %s: %s", i, b.Steps[i].Act.A, fd.Desc)
+			tail := []action{}
+			for j := max(0, i-12); j <= i; j++ {
+				tail = append(tail, b.Steps[j].Act)
+			}
+			tj, _ := json.Marshal(tail)
+			rep.DriftNote("step %d %s: %s | held: %s | steps: %s", i, b.Steps[i].Act.A, fd.Desc, c.describe(), tj)
 			if fd2 := r.finale(); fd2 != nil && fd2.Kind == "violation" {
 				return fd2, i
 			}
